@@ -211,16 +211,14 @@ Fixpoint normalize (f : font) (level : N) (nf : option N) (l : list glyph) : lis
   end.
 
 (* ------------------------------------------------------------------ metrics (face.rs) *)
-Definition wrap_i16 (z : Z) : Z :=
-  let m := (z mod 65536)%Z in if (m <? 32768)%Z then m else (m - 65536)%Z.
-
 (* glyph_h_advance: hmtx advance (0 beyond the table) *)
 Definition h_advance (f : font) (g : N) : Z := Z.of_N (hadv_of f g).
-(* glyph_v_advance: -(vmtx advance), or -((ascender - descender) computed in i16, release build) *)
+(* glyph_v_advance: -(vmtx advance), or -(ascender - descender) computed in i32 (since /repo 836488e;
+   before that fix the subtraction was done in i16 and wrapped / panicked for differences > 32767) *)
 Definition v_advance (f : font) (g : N) : Z :=
   match f_vmetrics f with
   | Some vm => (- Z.of_N (nth (N.to_nat g) (vm_vadv vm) 0%N))%Z
-  | None => (- wrap_i16 (f_ascender f - f_descender f))%Z
+  | None => (- (f_ascender f - f_descender f))%Z
   end.
 (* glyph_h_origin: h_advance / 2 (i32 division of a non-negative value) *)
 Definition h_origin (f : font) (g : N) : Z := (h_advance f g / 2)%Z.
